@@ -2,6 +2,7 @@ from . import hubprops
 from .. import scenarios
 
 hubprops.PLAN["C19"] = [
+    {"fam": "two-loggers", "scen": scenarios.two_loggers, "num_q": 0, "num_t": 0, "prof_q": 3, "prof_t": 8},
     {"fam": "repo-tests", "scen": "repo-tests", "num_q": 0, "num_t": 0},
     {"fam": "Routing", "num_q": 50, "num_t": 600, "depth": 80},
     {"fam": "Identity", "num_q": 40, "num_t": 600, "depth": 100},
